@@ -189,6 +189,9 @@ fn case1<T: Elem>(case: u64, args: &Args, ev: &mut Ev) {
     } else {
         gen_linear_case::<T>(&mut rng, &LinearOpts { max_n: 9, max_lane_rank: 3, allow_cluster: false, ..Default::default() })
     };
+    // baseline: everything owned and in C order
+    spec.data_lay = Layout::c(spec.data.ndim());
+    spec.x_lay = Layout::c(1);
     // explicit axis so that its layout can be varied; favour the dims with all storage kinds
     if spec.x.is_none() {
         spec.x = Some(Array1::from(spec.axis()));
@@ -242,6 +245,9 @@ fn case2<T: Elem>(case: u64, args: &Args, ev: &mut Ev) {
     let mut rng = Rng::derive(args.seed, "C13", &[case]);
     let oor = rng.chance(0.3);
     let (mut spec, _) = gen_grid_case::<T>(&mut rng, &GridOpts { max_nx: 6, max_ny: 5, max_lane_rank: 2, allow_cluster: false, ..Default::default() });
+    spec.data_lay = Layout::c(spec.data.ndim());
+    spec.x_lay = Layout::c(1);
+    spec.y_lay = Layout::c(1);
     if spec.x.is_none() {
         spec.x = Some(Array1::from(spec.axis_x()));
     }
